@@ -1,5 +1,28 @@
 """Per-property check configuration: which units decide it, what is assumed."""
+import os, re, subprocess, time
 from . import kani as _kani
+
+def nixtable_engine(prop, tier, work):
+    """validates by execution the assumed nix signal table contract used by unit `names` (not a proof: an executed table check)"""
+    out = {"obligations": {}, "violations": [], "tool_errors": [], "cmds": [], "trusted": [], "functions": [], "coverage": {}}
+    here = os.path.dirname(os.path.dirname(os.path.abspath(__file__)))
+    cmd = [os.path.join(here, "replay", "run.sh"), "nixtable", "check"]
+    out["cmds"].append("replay/run.sh nixtable check  (real nix crate, all i32 in -2..=130)")
+    try:
+        p = subprocess.run(cmd, capture_output=True, text=True, timeout=600)
+    except subprocess.TimeoutExpired:
+        out["tool_errors"].append("nixtable: timeout"); return out
+    m = re.search(r"RESULT nix_table (ok|VIOLATED)(.*)", p.stdout)
+    oid = "C19.nix_table.assumed_contract_validated_by_execution"
+    if not m:
+        out["tool_errors"].append("nixtable: no result: " + (p.stdout + p.stderr)[-400:]); return out
+    out["obligations"][oid] = {"unit": "replay/nixtable", "clause": "executed: nix from_str/try_from/as_str behave as the axioms of prelude/names_env.rs say, for every nix signal" + m.group(2),
+                               "instances": 1, "ok": m.group(1) == "ok", "back_end": "execution of the real nix crate (table validation, not proof)"}
+    if m.group(1) != "ok":
+        out["violations"].append({"property": prop, "obligation": oid, "unit": "replay/nixtable", "item": None, "verus_message": "assumed dependency contract does not hold",
+                                  "sites": [], "clause": "", "verus_output": m.group(0), "counterexample": {"observed": m.group(2)}, "note": "executed on the real nix crate"})
+    return out
+
 
 COMMON_ASSUME = [
     "Windows and cfg(test) variants of the code are not verified (R3 resolves cfg for linux, non-test, default features)",
@@ -49,12 +72,12 @@ PROPS = {
     "C20": dict(units=["origins"], level="proof", assumptions=ORIGINS_ASSUME,
                 claim="ProjectType::{is_vcs,is_soft}, DirList::*, check_list, origins (ancestor walk, loop invariant, termination) and types proved by Verus against specs transcribed from the docs, for all paths and directory contents",
                 trusted="stand-ins in prelude/origins_env.rs (abstract paths, directory listing map, HashSet/array iterator idioms); string literals interned (R9)"),
-    "C19": dict(units=[], engines=[_kani.make_engine("signals"), _kani.make_engine("events")], level="proof",
-                back_ends=["kani 0.68 / cbmc 6.11 (loop-free harnesses over full-domain symbolic inputs: complete, not bounded)"],
+    "C19": dict(units=["names"], engines=[_kani.make_engine("signals"), _kani.make_engine("events"), nixtable_engine], level="proof",
+                back_ends=["kani 0.68 / cbmc 6.11 (loop-free harnesses over full-domain symbolic inputs: complete, not bounded)", "verus 0.2026.09.13 (z3) for name parsing/display", "execution of the real nix crate for the assumed table contract (validation, not proof)"],
                 assumptions=["linux/unix variants only", "wait-status encoding of the host libc (WIFEXITED/WEXITSTATUS/WIFSIGNALED/WTERMSIG as implemented by std on linux) restated in the harness",
-                             "name parsing (from_str/Display) is decided in the Verus unit `names`; the --map-signal clap glue is not decided",
+                             "name parsing/display (unit names): strings are abstract; STRING THEORY axioms (upper-casing idempotent and number-preserving, decimal print/parse round trip, SIG prefix, distinct literals) and the nix table contract are assumed, the latter validated by execution on every run; the --map-signal clap glue is not decided",
                              "stop/continue wait statuses are outside the statement: std never reports them; observed: they map to Success, and into_exitstatus(Continued) does not read back"],
-                claim="Signal::{from(i32),to_nix,from_nix} and ProcessEnd::from(ExitStatus)/into_exitstatus proved by Kani for all 2^32 raw values and all enum values (function contracts on thin wrappers, proof_for_contract)",
+                claim="from_unix_str_impl, from_windows_str, FromStr::from_str, Display::fmt proved by Verus equal to a parse/display spec on which case-insensitivity, agreement of short/long/number spellings and display round trip are lemmas; Signal::{from(i32),to_nix,from_nix} and ProcessEnd::from(ExitStatus)/into_exitstatus proved by Kani for all 2^32 raw values and all enum values (function contracts on thin wrappers, proof_for_contract)",
                 trusted="CBMC's bit-precise model of the compiled MIR incl. std::process::ExitStatus and nix::sys::signal::Signal::try_from (real code, no stubs)",
                 technique="Kani function contracts (proof_for_contract) on the real conversion functions, full-domain symbolic inputs"),
     "C16": dict(units=[], engines=[_kani.make_engine("signals"), _kani.make_engine("events")], level="proof",
